@@ -359,3 +359,58 @@ package retriever
 //@   ensures eofOnlyWhenFinal: result.1 != nil && result.1 == io.EOF ==> s.final
 //@   loop 0
 //@     invariant s.reader == old(s.reader) && s.recipient == old(s.recipient) && s.reader != nil && s.recipient != nil
+
+// C20 kernel, part 5: the staged unpack. The destination is only ever touched by promoteUnpackStagingDirectory, which
+// requires that the staging directory holds a collection that was extracted by the verified tar loop, validated
+// against its manifest (extractedValidated) and whose encrypted stream was read to its authenticated end
+// (streamDrained); every other exit of Unpack removes the staging directory it created (stagingPresent).
+//@ import os "os"
+//@ ghost comp extractedValidated bool
+//@ ghost comp streamDrained bool
+//@ ghost comp stagingPresent bool
+
+//@ func validateExtractedCollection(outputDir string, files map[string]unpackedFileIntegrity) (Manifest, error)
+//@   opaque
+//@   modifies extractedValidated[outputDir]
+//@   ensures result.1 == nil ==> extractedValidated[outputDir]
+//@   ensures result.1 != nil ==> extractedValidated[outputDir] == old(extractedValidated[outputDir])
+//@ func newEncryptedArchiveReader(reader io.Reader, identity hpke.PrivateKey) (*encryptedArchiveReader, error)
+//@   opaque
+//@   nomod
+//@   ensures result.1 == nil ==> result.0 != nil
+//@ extern func io.Copy(dst io.Writer, src io.Reader) (int64, error)
+//@   modifies streamDrained[src], all(ghost:g.readerConsumed), all(ghost:g.readerEnded)
+//@   ensures result.1 == nil ==> streamDrained[src]
+
+//@ func unpackCollectionTarWithOptions(reader io.Reader, outputDir string, force bool, options ArchiveOptions) error
+//@   modifies written[outputDir], extractedValidated[outputDir], all(ghost:g.tarEntryRegular)
+//@   nosafety
+//@   ensures validated: result == nil ==> extractedValidated[outputDir]
+
+//@ func UnpackEncryptedCollectionArchiveWithOptions(reader io.Reader, outputDir string, identity hpke.PrivateKey, options ArchiveOptions) error
+//@   modifies written[outputDir], extractedValidated[outputDir], all(ghost:g.tarEntryRegular), all(ghost:g.streamDrained), all(ghost:g.readerConsumed), all(ghost:g.readerEnded)
+//@   nosafety
+//@   ensures complete: result == nil ==> extractedValidated[outputDir] && (exists r io.Reader :: {:pattern streamDrained[r]} streamDrained[r])
+
+//@ func (s UnpackOptions) validate() error
+//@   opaque
+//@   nomod
+//@ func createUnpackStagingDirectory(outputDir string, force bool) (string, error)
+//@   opaque
+//@   modifies all(ghost:g.stagingPresent)
+//@   ensures result.1 == nil ==> stagingPresent[result.0] && result.0 != trimmed(outputDir) && result.0 != outputDir
+//@   ensures forall p string :: p != result.0 ==> stagingPresent[p] == old(stagingPresent[p])
+//@   ensures result.1 != nil ==> (forall p string :: stagingPresent[p] == old(stagingPresent[p]))
+//@ extern func os.RemoveAll(path string) error
+//@   modifies stagingPresent[path]
+//@   ensures !stagingPresent[path]
+//@ func promoteUnpackStagingDirectory(stagingDir string, outputDir string, force bool) error
+//@   opaque
+//@   requires validatedFirst: extractedValidated[stagingDir]
+//@   modifies stagingPresent[stagingDir]
+//@   ensures result == nil ==> !stagingPresent[stagingDir]
+//@   ensures result != nil ==> stagingPresent[stagingDir] == old(stagingPresent[stagingDir])
+
+//@ func Unpack(options UnpackOptions) error
+//@   nosafety
+//@   ensures noStagingLeft: forall p string :: stagingPresent[p] ==> old(stagingPresent[p])
